@@ -88,6 +88,7 @@ def base_consts(u, budgets, hostile, extra=None):
 
 
 QUICK_CAP = int(os.environ.get("VERIF_QUICK_CAP", "3000"))
+THOROUGH_CAP = int(os.environ.get("VERIF_THOROUGH_CAP", "40000"))   # (the thorough generators emit > 700 k sequences)
 WANT_OPS = {"C20": {"age", "clean"}, "C06": {"restart"}, "C05": {"restart"}}
 # focused exhaustive generation per property: (commands, depth in the quick tier, whole files only)
 FOCUS = {"C20": [(["recv", "prepare", "age", "clean", "restart"], 4, True)],
@@ -146,7 +147,7 @@ def gen_scenarios(ctx, u, path):
     out.close()
     ctx.notes.setdefault("generated", {})[u] = {"short_exhaustive": nshort, "focus_exhaustive": nfocus,
                                                 "random_walks": n - nshort - nfocus}
-    cap = QUICK_CAP if ctx.tier == "quick" else None
+    cap = QUICK_CAP if ctx.tier == "quick" else THOROUGH_CAP
     if cap and n > cap:
         # the quick tier executes all short sequences, a seeded sample of the focused sequences (at most
         # two thirds of the cap) and a seeded sample of the walk prefixes
@@ -181,7 +182,7 @@ def gen_scenarios(ctx, u, path):
     return n
 
 
-def run_harness_parallel(ctx, scn, crashall, parts=None):
+def run_harness_parallel(ctx, scn, crashall, parts=None, crash2=False):
     """Split the scenario file and run the stage harness in parallel processes."""
     lines = open(scn).read().splitlines()
     parts = parts or NCPU
@@ -198,6 +199,8 @@ def run_harness_parallel(ctx, scn, crashall, parts=None):
         args = ["stage", "run", "-in", p, "-traces", tr, "-out", summ, "-work", ctx.fresh("work")]
         if crashall:
             args.append("-crashall")
+            if crash2:
+                args.append("-crash2")      # repeated crashes: also inside the Recover() that follows
         run_harness(ctx, args, timeout=2400)
         return tr, summ
 
@@ -345,22 +348,34 @@ def check(ctx, replay=None, final=True):
         n = gen_scenarios(ctx, u, scn)
         log("  %s: generated %d scenarios in %.0fs" % (u, n, _t.time() - t0))
         crashall = bool(P.get("crashall")) or ctx.tier == "thorough"
-        if crashall and ctx.tier == "quick":
+        nrich = 48 if ctx.tier == "quick" else 400
+        if crashall:
             # fault enumeration on a slice of the scenarios, plain execution of the rest
             lines = open(scn).read().splitlines()
             # the scenarios with the most complete, uncorrupted transfers get the crash enumeration
             def rich(line):
                 return sum(1 for c in json.loads(line)["cmds"] if c["op"] == "recv" and c.get("dv") == c.get("v"))
             order = sorted(range(len(lines)), key=lambda i: -rich(lines[i]))
-            pick = set(order[:48])
+            pick = set(order[:nrich])
             a, bb = scn + ".ca", scn + ".pl"
             open(a, "w").write("\n".join(lines[i] for i in sorted(pick)) + "\n")
             open(bb, "w").write("\n".join(l for i, l in enumerate(lines) if i not in pick) + "\n")
+            # the slice gets every first crash and (C06) every second crash inside the following Recover;
+            # the rest runs without crashes (quick) or with first crashes only (thorough)
             t1, s1 = run_harness_parallel(ctx, a, True)
             t2, s2 = run_harness_parallel(ctx, bb, False)
             traces = scn + ".all"
             open(traces, "w").write(open(t1).read() + open(t2).read())
             tot = {k: s1[k] + s2[k] for k in s1}
+            if prop == "C06":
+                # repeated crashes: the few richest scenarios also get a second crash at every hook
+                # occurrence of the Recover() that follows the first crash
+                a2 = scn + ".c2"
+                top = order[:(8 if ctx.tier == "quick" else 60)]
+                open(a2, "w").write("\n".join(lines[i] for i in sorted(top)) + "\n")
+                t3, s3 = run_harness_parallel(ctx, a2, True, crash2=True)
+                open(traces, "a").write(open(t3).read())
+                tot = {k: tot[k] + s3[k] for k in tot}
         else:
             traces, tot = run_harness_parallel(ctx, scn, crashall)
         ctx.notes.setdefault("executed", {})[u] = tot
